@@ -60,14 +60,15 @@ Qed.
 Lemma diff_internal_spec y : sorted_cu y -> forall (fuel : nat) id s, cellform id s -> s < Z.of_nat fuel ->
   let D := diff_internal fuel id y in
   StronglySorted before D /\ Forall (fun c => valid c /\ nested_in c id) D /\
-  (forall x, leaf x -> (cov D x <-> covers id x /\ ~ cov y x)).
+  (forall x, leaf x -> (cov D x <-> covers id x /\ ~ cov y x)) /\
+  (forall k, In k D -> k = id \/ exists t, leaf t /\ covers (s2_CellID_immediateParent k) t /\ cov y t).
 Proof.
   intros Hy. induction fuel as [|fuel IH]; intros id s H Hs; [destruct H; lia|].
   pose proof (cellform_valid _ _ H) as Vid. cbn [diff_internal]. cbv zeta.
   destruct (cu_IntersectsCellID y id) eqn:EI; cbn [negb].
   - destruct (cu_ContainsCellID y id) eqn:EC; cbn [negb].
     + (* covered *)
-      split; [constructor|]. split; [constructor|]. intros x Lx.
+      split; [constructor|]. split; [constructor|]. split; [|intros ? []]. intros x Lx.
       apply (contains_cellid_nested y id Hy Vid) in EC. destruct EC as (c & Hin & Nn).
       split; [intros Hc; destruct (cov_nil x Hc)|]. intros [Hx Hn]. exfalso. apply Hn. exists c. split; [exact Hin|].
       unfold covers, nested_in in *. lia.
@@ -86,7 +87,8 @@ Proof.
       assert (Hk : forall k, In k [a; b; c; d] ->
                 let D := diff_internal fuel k y in
                 StronglySorted before D /\ Forall (fun c => valid c /\ nested_in c k) D /\
-                (forall x, leaf x -> (cov D x <-> covers k x /\ ~ cov y x))).
+                (forall x, leaf x -> (cov D x <-> covers k x /\ ~ cov y x)) /\
+                (forall k', In k' D -> k' = k \/ exists t, leaf t /\ covers (s2_CellID_immediateParent k') t /\ cov y t)).
       { intros k Hin. apply (IH k (s - 1)); [apply CF; exact Hin|lia]. }
       assert (Sabcd : StronglySorted before [a; b; c; d]).
       { destruct T. pose proof (valid_le _ t4_a). pose proof (valid_le _ t4_b). pose proof (valid_le _ t4_c). pose proof (valid_le _ t4_d).
@@ -95,19 +97,24 @@ Proof.
       { destruct T. constructor; [assumption|]. constructor; [assumption|]. constructor; [assumption|]. constructor; [assumption|constructor]. }
       destruct (SS_flat_map (fun child => diff_internal fuel child y) [a; b; c; d] Sabcd Vabcd) as [FS FF].
       { intros k Hin. destruct (Hk k Hin) as (K1 & K2 & _). split; assumption. }
-      split; [exact FS|]. split.
+      split; [exact FS|]. split; [|split].
       * rewrite Forall_forall in *. intros c' Hc'. destruct (FF c' Hc') as [Vc' (k & Hin & Nk)]. split; [exact Vc'|].
         destruct (tiles4_child id a b c d k Vid T Hin) as (_ & Nkid & _). unfold nested_in in *. lia.
       * intros x Lx. rewrite cov_flat_map. rewrite (tiles4_cov _ _ _ _ _ x T Lx). split.
-        -- intros (k & Hin & Hc). apply (proj2 (proj2 (Hk k Hin)) x Lx) in Hc. destruct Hc as [Hc Hn]. split; [|exact Hn].
+        -- intros (k & Hin & Hc). apply (proj1 (proj2 (proj2 (Hk k Hin))) x Lx) in Hc. destruct Hc as [Hc Hn]. split; [|exact Hn].
            destruct Hin as [<-|[<-|[<-|[<-|[]]]]]; tauto.
         -- intros [[Hc|[Hc|[Hc|Hc]]] Hn].
-           ++ exists a. split; [cbn; tauto|]. apply (proj2 (proj2 (Hk a ltac:(cbn; tauto))) x Lx). tauto.
-           ++ exists b. split; [cbn; tauto|]. apply (proj2 (proj2 (Hk b ltac:(cbn; tauto))) x Lx). tauto.
-           ++ exists c. split; [cbn; tauto|]. apply (proj2 (proj2 (Hk c ltac:(cbn; tauto))) x Lx). tauto.
-           ++ exists d. split; [cbn; tauto|]. apply (proj2 (proj2 (Hk d ltac:(cbn; tauto))) x Lx). tauto.
+           ++ exists a. split; [cbn; tauto|]. apply (proj1 (proj2 (proj2 (Hk a ltac:(cbn; tauto)))) x Lx). tauto.
+           ++ exists b. split; [cbn; tauto|]. apply (proj1 (proj2 (proj2 (Hk b ltac:(cbn; tauto)))) x Lx). tauto.
+           ++ exists c. split; [cbn; tauto|]. apply (proj1 (proj2 (proj2 (Hk c ltac:(cbn; tauto)))) x Lx). tauto.
+           ++ exists d. split; [cbn; tauto|]. apply (proj1 (proj2 (proj2 (Hk d ltac:(cbn; tauto)))) x Lx). tauto.
+      * intros k' Hk'. right. apply in_flat_map in Hk'. destruct Hk' as (k & Hin & Hk').
+        destruct (proj2 (proj2 (proj2 (Hk k Hin))) k' Hk') as [->|M]; [|exact M].
+        destruct (tiles4_child id a b c d k Vid T Hin) as (_ & _ & _ & _ & Pk). rewrite Pk.
+        apply (intersects_cellid_spec y id Hy Vid). exact EI.
   - (* disjoint *)
     split; [repeat constructor|]. split; [constructor; [split; [exact Vid|unfold nested_in; lia]|constructor]|].
+    split; [|intros k [<-|[]]; left; reflexivity].
     intros x Lx. rewrite cov_cons. pose proof (cov_nil x).
     split.
     + intros [Hc|Hc]; [|tauto]. split; [exact Hc|]. intros Hy'.
@@ -116,24 +123,72 @@ Proof.
     + tauto.
 Qed.
 
-Theorem difference_spec x y : sorted_cu x -> sorted_cu y ->
+Lemma difference_spec_full x y : sorted_cu x -> sorted_cu y ->
   sorted_cu (cu_FromDifference x y) /\
-  forall t, leaf t -> (cov (cu_FromDifference x y) t <-> cov x t /\ ~ cov y t).
+  (forall t, leaf t -> (cov (cu_FromDifference x y) t <-> cov x t /\ ~ cov y t)) /\
+  (forall k, In k (cu_FromDifference x y) -> In k x \/ exists t, leaf t /\ covers (s2_CellID_immediateParent k) t /\ cov y t).
 Proof.
   intros [Vx Sx] Hy. unfold cu_FromDifference.
   assert (Hk : forall xid, In xid x ->
             let D := diff_internal 32 xid y in
             StronglySorted before D /\ Forall (fun c => valid c /\ nested_in c xid) D /\
-            (forall t, leaf t -> (cov D t <-> covers xid t /\ ~ cov y t))).
+            (forall t, leaf t -> (cov D t <-> covers xid t /\ ~ cov y t)) /\
+            (forall k, In k D -> k = xid \/ exists t, leaf t /\ covers (s2_CellID_immediateParent k) t /\ cov y t)).
   { intros xid Hin. rewrite Forall_forall in Vx. destruct (valid_cellform _ (Vx xid Hin)) as [s H].
     apply (diff_internal_spec y Hy 32 xid s H). destruct H; lia. }
   destruct (SS_flat_map (fun xid => diff_internal 32 xid y) x Sx Vx) as [FS FF].
   { intros k Hin. destruct (Hk k Hin) as (K1 & K2 & _). split; assumption. }
-  split.
+  split; [|split].
   - split; [|exact FS]. eapply Forall_impl; [|exact FF]. cbn. tauto.
   - intros t Lt. rewrite cov_flat_map. split.
-    + intros (xid & Hin & Hc). apply (proj2 (proj2 (Hk xid Hin)) t Lt) in Hc. split; [exists xid; tauto|tauto].
-    + intros [(xid & Hin & Hc) Hn]. exists xid. split; [exact Hin|]. apply (proj2 (proj2 (Hk xid Hin)) t Lt). tauto.
+    + intros (xid & Hin & Hc). apply (proj1 (proj2 (proj2 (Hk xid Hin))) t Lt) in Hc. split; [exists xid; tauto|tauto].
+    + intros [(xid & Hin & Hc) Hn]. exists xid. split; [exact Hin|]. apply (proj1 (proj2 (proj2 (Hk xid Hin))) t Lt). tauto.
+  - intros k Hk'. apply in_flat_map in Hk'. destruct Hk' as (xid & Hin & Hk').
+    destruct (proj2 (proj2 (proj2 (Hk xid Hin))) k Hk') as [->|M]; [left; exact Hin|right; exact M].
+Qed.
+
+Theorem difference_spec x y : sorted_cu x -> sorted_cu y ->
+  sorted_cu (cu_FromDifference x y) /\
+  forall t, leaf t -> (cov (cu_FromDifference x y) t <-> cov x t /\ ~ cov y t).
+Proof.
+  intros Hx Hy. destruct (difference_spec_full x y Hx Hy) as (H1 & H2 & _). split; assumption.
+Qed.
+
+(** the Go comment "there should not be any cells that can be merged (provided that both
+    inputs were normalized)": the difference of a normalized x is normalized *)
+Theorem difference_normal x y : normal x -> sorted_cu y -> normal (cu_FromDifference x y).
+Proof.
+  intros Nx Hy. destruct (difference_spec_full x y (normal_sorted_cu x Nx) Hy) as ((V & S) & C & O).
+  split; [exact V|]. split; [exact S|].
+  intros l1 a b c d l2 E. destruct (s2_areSiblings a b c d) eqn:Sib; [exfalso|reflexivity].
+  set (R := cu_FromDifference x y) in *.
+  assert (Ha : In a R) by (rewrite E; apply in_or_app; right; cbn; tauto).
+  assert (Hb : In b R) by (rewrite E; apply in_or_app; right; cbn; tauto).
+  assert (Hc : In c R) by (rewrite E; apply in_or_app; right; cbn; tauto).
+  assert (Hd : In d R) by (rewrite E; apply in_or_app; right; cbn; tauto).
+  rewrite Forall_forall in V.
+  pose proof (V a Ha) as Va. pose proof (V b Hb) as Vb. pose proof (V c Hc) as Vc. pose proof (V d Hd) as Vd.
+  assert (Hlt : a < b /\ b < c /\ c < d).
+  { rewrite E in S. apply SS_suffix in S.
+    inversion S as [|? ? S1 F1]; subst. inversion S1 as [|? ? S2 F2]; subst. inversion S2 as [|? ? _ F3]; subst.
+    inversion F1 as [|? ? Bab _]; subst. inversion F2 as [|? ? Bbc _]; subst. inversion F3 as [|? ? Bcd _]; subst.
+    unfold before in *.
+    pose proof (valid_range _ Va) as (_ & Ra & _). pose proof (valid_range _ Vb) as (_ & Rb & _).
+    pose proof (valid_range _ Vc) as (_ & Rc & _). pose proof (valid_range _ Vd) as (_ & Rd & _). lia. }
+  destruct (siblings_tiles a b c d Va Vb Vc Vd ltac:(lia) ltac:(lia) ltac:(lia) Sib) as [T4 Vp].
+  set (p := s2_CellID_immediateParent d) in *.
+  (* y cannot meet the parent: each of the four children is output, hence free of y *)
+  assert (Free : forall t, leaf t -> covers p t -> ~ cov y t).
+  { intros t Lt Hp Hy'. apply (tiles4_cov _ _ _ _ _ t T4 Lt) in Hp.
+    assert (forall k, In k R -> covers k t -> False).
+    { intros k Hk Hkt. assert (cov R t) by (exists k; auto). apply (C t Lt) in H. tauto. }
+    destruct Hp as [Hp|[Hp|[Hp|Hp]]]; eauto. }
+  assert (Top : forall k, In k R -> s2_CellID_immediateParent k = p -> In k x).
+  { intros k Hk Pk. destruct (O k Hk) as [Hin|(t & Lt & Hp & Hy')]; [exact Hin|]. rewrite Pk in Hp. exfalso. exact (Free t Lt Hp Hy'). }
+  destruct Nx as (Vx & Sx & NSx).
+  destruct (tiles_consecutive x p a b c d Sx Vx T4) as (k1 & k2 & Ex);
+    try (apply Top; [assumption|destruct T4; assumption]).
+  rewrite (NSx k1 a b c d k2 Ex) in Sib. discriminate.
 Qed.
 
 (** * Intersection *)
